@@ -326,7 +326,7 @@ pub fn run(args: &Args) -> ! {
 
     let ns: Vec<usize> = args.tier.pick(vec![1, 2, 3], (1..=8).collect());
     let list = cases(args.tier);
-    let deadline = crate::common::wall_cap(args, 28, 1050);
+    let deadline = crate::common::wall_cap(args, 55, 1050);
     let mismatches: Mutex<Vec<Mismatch>> = Mutex::new(Vec::new());
     // a run of the binary mostly waits (fixed 100 ms drain), so twice as many cases as threads are in flight
     let (acc, done) = mc::par_indices(list.len() as u64, (args.threads * 2).min(32), 1, |i, acc| {
